@@ -25,6 +25,7 @@ type Scope struct {
 	Bound  map[string]Val
 	Pkg    *ssa.Package
 	Iter   map[int]string // loop ordinal -> number of completed iterations (range loops)
+	At     map[int]map[string]Val // loop ordinal -> header phi values by source name
 }
 
 func (sc *Scope) with(st *State) *Scope {
@@ -314,7 +315,23 @@ func (ex *Exec) specCall(sc *Scope, e *ast.CallExpr) Val {
 		if sc.Old == nil {
 			specErr(e, "old() used outside a post-condition")
 		}
-		return ex.evalSpec(sc.with(sc.Old), e.Args[0])
+		v := ex.evalSpec(sc.with(sc.Old), e.Args[0])
+		// quantified old-values are named once (same constant at every use)
+		if b, isB := v.(Bool); isB && (strings.Contains(b.T, "(exists ") || strings.Contains(b.T, "(forall ")) && len(sc.Bound) == 0 {
+			key := "old:" + exprText(e.Args[0])
+			ex.mu.Lock()
+			c, seen := ex.oldNames[key]
+			ex.mu.Unlock()
+			if !seen {
+				c = ex.Ctx.Fresh("old", "Bool")
+				ex.Ctx.AddAxiom(smt.Eq(c, b.T))
+				ex.mu.Lock()
+				ex.oldNames[key] = c
+				ex.mu.Unlock()
+			}
+			return Bool{c}
+		}
+		return v
 	case "imp":
 		return Bool{smt.Imp(argB(0), argB(1))}
 	case "iff":
@@ -351,6 +368,20 @@ func (ex *Exec) specCall(sc *Scope, e *ast.CallExpr) Val {
 			return Bool{smt.Forall([][2]string{{bn, "Int"}}, smt.Imp(rng, body))}
 		}
 		return Bool{smt.Exists([][2]string{{bn, "Int"}}, smt.And(rng, body))}
+	case "forall_str":
+		id, ok := e.Args[0].(*ast.Ident)
+		if !ok {
+			specErr(e, "forall_str: first argument must be an identifier")
+		}
+		bn := ex.boundName(id.Name)
+		n := *sc
+		n.Bound = map[string]Val{}
+		for k, v := range sc.Bound {
+			n.Bound[k] = v
+		}
+		n.Bound[id.Name] = Str{bn}
+		body := ex.evalSpec(&n, e.Args[1]).(Bool).T
+		return Bool{smt.Forall([][2]string{{bn, "Str"}}, body)}
 	case "mem":
 		s, ok := arg(0).(Slice)
 		if !ok {
@@ -377,6 +408,26 @@ func (ex *Exec) specCall(sc *Scope, e *ast.CallExpr) Val {
 			return Bool{smt.Eq(smt.App("dyn", i.Ref), ex.typeIDByName(want))}
 		}
 		specErr(e, "typeIs on %T", v)
+	case "D":
+		// ghost predicate "the rule expresses the fixed fact" (Rules.Merge)
+		d, ok := sc.St.Ghost["D"]
+		if !ok {
+			specErr(e, "D() used outside a rulesmerge contract")
+		}
+		r, ok2 := ex.refOf(sc.St, arg(0))
+		if !ok2 {
+			specErr(e, "D: argument is not a reference")
+		}
+		return Bool{smt.Sel(d, r)}
+	case "at":
+		n, _ := strconv.Atoi(e.Args[0].(*ast.BasicLit).Value)
+		name := e.Args[1].(*ast.Ident).Name
+		if m, ok := sc.At[n]; ok {
+			if v, ok := m[name]; ok {
+				return v
+			}
+		}
+		specErr(e, "at(%d, %s): no such loop variable in scope", n, name)
 	case "iter":
 		n, _ := strconv.Atoi(e.Args[0].(*ast.BasicLit).Value)
 		if t, ok := sc.Iter[n]; ok {
@@ -581,4 +632,28 @@ func (ex *Exec) HasPrefix(s, p string) string {
 		ex.Ctx.AddAxiom("(forall ((s Str) (p Str)) (! (= (hasprefix s p) (and (<= (slen p) (slen s)) (forall ((i Int)) (=> (and (<= 0 i) (< i (slen p))) (= (sat s i) (sat p i)))))) :pattern ((hasprefix s p))))")
 	}
 	return smt.App(f, s, p)
+}
+
+func exprText(e ast.Expr) string {
+	var b strings.Builder
+	ast.Inspect(e, func(n ast.Node) bool {
+		switch x := n.(type) {
+		case *ast.Ident:
+			b.WriteString(x.Name + " ")
+		case *ast.BasicLit:
+			b.WriteString(x.Value + " ")
+		case *ast.BinaryExpr:
+			b.WriteString(x.Op.String() + " ")
+		case *ast.UnaryExpr:
+			b.WriteString(x.Op.String() + " ")
+		case *ast.CallExpr:
+			b.WriteString("( ")
+		case *ast.IndexExpr:
+			b.WriteString("[ ")
+		case *ast.SelectorExpr:
+			b.WriteString(". ")
+		}
+		return true
+	})
+	return b.String()
 }
